@@ -46,6 +46,7 @@ META = dict(
     technique="dependency-lag abstract interpretation (dataflow) over the AST",
 )
 META["text"] += ' Control dependence counts: a value returned under a data-dependent branch, and everything computed after an early return under one, depends on the whole sample. (R6, N) no method keeps state between calls (see C01.R8).'
+META["text"] += " (R7 = C12.R7) no test writes into the caller's sample."
 
 
 from .. import nnm_rules  # noqa: E402
